@@ -32,6 +32,8 @@ def plan(tier, seed):
                     continue
                 for lo in range(0, nbase, step):
                     jobs.append((seed, cfgspec, codec, hexb, tier, lo, lo + step, nbase, 150 if lo == 0 else 0))
+    for lo in range(0, 4, 2):
+        jobs.append((seed, ('pkg',), 'ascii', False, tier, lo, lo + 2, 4, 40 if lo == 0 else 0))
     return jobs
 
 
